@@ -107,7 +107,11 @@ def parse(res, g, unit_name):
         rl = 'rlimit' in msg.lower() or 'resource limit' in msg.lower()
         if rl:
             fn = _fn_of(spans, g)
+            if fn is None:
+                lem = _lemma_of(spans, g)
+                fn = ('lemma::' + lem) if lem else None
             out['undecided'].append('resource limit: %s (%s)' % (msg, fn))
+            out.setdefault('rlimit_fns', []).append(fn)
             continue
         if kind is None:
             if 'recommendation not met' in msg:
